@@ -14,6 +14,7 @@ import (
 	"math"
 	"math/rand"
 	"sort"
+	"strings"
 	"time"
 
 	"github.com/prometheus/prometheus/model/labels"
@@ -28,7 +29,8 @@ import (
 )
 
 type input struct {
-	Kind   string         `json:"kind"` // labels | cleanup
+	Kind   string         `json:"kind"` // labels (TSDB stores + proxy) | bucket (BucketStore + proxy) | cleanup
+	Blocks []tu.BlockIn   `json:"blocks,omitempty"`
 	Exts   [][]tu.Lbl     `json:"exts"`
 	Series []tu.SeriesIn  `json:"series"`
 	Ms     []tu.MatcherIn `json:"ms"`
@@ -45,15 +47,32 @@ type recServer struct {
 func (r *recServer) Send(m *storepb.SeriesResponse) error {
 	switch {
 	case m.GetSeries() != nil:
-		r.sets = append(r.sets, labelpb.ZLabelsToPromLabels(m.GetSeries().Labels).Copy())
+		r.sets = append(r.sets, cloneLabels(labelpb.ZLabelsToPromLabels(m.GetSeries().Labels)))
 	case m.GetBatch() != nil:
 		for _, s := range m.GetBatch().Series {
-			r.sets = append(r.sets, labelpb.ZLabelsToPromLabels(s.Labels).Copy())
+			r.sets = append(r.sets, cloneLabels(labelpb.ZLabelsToPromLabels(s.Labels)))
 		}
 	}
 	return nil
 }
 func (r *recServer) Context() context.Context { return r.ctx }
+
+// responses of the bucket store may point into memory-mapped index headers: copy every string
+func cloneStrs(in []string) []string {
+	out := make([]string, len(in))
+	for i, x := range in {
+		out[i] = strings.Clone(x)
+	}
+	return out
+}
+
+func cloneLabels(l labels.Labels) labels.Labels {
+	var out []labels.Label
+	l.Range(func(x labels.Label) {
+		out = append(out, labels.Label{Name: strings.Clone(x.Name), Value: strings.Clone(x.Value)})
+	})
+	return labels.New(out...)
+}
 
 type obs struct {
 	series []labels.Labels
@@ -102,13 +121,13 @@ func askAll(srv storepb.StoreServer, in input) (obs, error) {
 	if err != nil {
 		return o, fmt.Errorf("LabelNames: %w", err)
 	}
-	o.names = ln.Names
+	o.names = cloneStrs(ln.Names)
 	lv, err := srv.LabelValues(ctx, &storepb.LabelValuesRequest{Label: in.Label, Start: math.MinInt64 / 2, End: math.MaxInt64 / 2,
 		Matchers: tu.ToPB(in.Ms), WithoutReplicaLabels: in.WRL})
 	if err != nil {
 		return o, fmt.Errorf("LabelValues: %w", err)
 	}
-	o.values = lv.Values
+	o.values = cloneStrs(lv.Values)
 	return o, nil
 }
 
@@ -120,8 +139,12 @@ func run(raw json.RawMessage) (common.Case, error) {
 	var c common.Case
 	if in.Kind == "cleanup" {
 		tu.Cleanup()
+		tu.CleanupBucket()
 		c.Coq, c.Class = "CNop7", "cleanup"
 		return c, nil
+	}
+	if in.Kind == "bucket" {
+		return runBucket(in)
 	}
 	sc, err := tu.GetScenario(in.Series)
 	if err != nil {
@@ -215,6 +238,135 @@ func run(raw json.RawMessage) (common.Case, error) {
 	return c, nil
 }
 
+// runBucket: the object-storage store gateway over generated blocks, asked directly and through a proxy.
+func runBucket(in input) (common.Case, error) {
+	var c common.Case
+	sc, err := tu.GetBucketScenario(in.Blocks)
+	if err != nil {
+		return c, err
+	}
+	uni := map[string]struct{}{"": {}}
+	var coqBlocks []string
+	for _, b := range sc.Blocks {
+		tu.AddValues(uni, b.Ext)
+		var ss []string
+		for _, l := range b.Stored {
+			tu.AddValues(uni, l)
+			ss = append(ss, tu.CoqLabels(l))
+		}
+		coqBlocks = append(coqBlocks, common.Pair(tu.CoqLabels(b.Ext), common.List(ss)))
+	}
+	coqMs, _, err := tu.CoqMatchers(in.Ms, uni)
+	if err != nil {
+		return c, err
+	}
+	hne := false
+	for _, m := range in.Ms {
+		if m.Name == "__name__" && m.Type == 0 {
+			hne = true
+		}
+	}
+	so, err := askAll(sc.Store, in)
+	if err != nil {
+		return c, err
+	}
+	var lsets []labels.Labels
+	for _, ls := range sc.Store.LabelSet() {
+		lsets = append(lsets, cloneLabels(labelpb.ZLabelsToPromLabels(ls.Labels)))
+	}
+	mint, maxt := sc.Store.TimeRange()
+	clients := []store.Client{&storetestutil.TestClient{StoreClient: storepb.ServerAsClient(sc.Store, atomic.Bool{}), Name: "bucket",
+		ExtLset: lsets, MinTime: mint, MaxTime: maxt, WithoutReplicaLabelsEnabled: true}}
+	p := store.NewProxyStore(nil, nil, func() []store.Client { return clients }, component.Query, labels.EmptyLabels(), 0*time.Second, store.EagerRetrieval)
+	po, err := askAll(p, in)
+	if err != nil {
+		return c, err
+	}
+	c.Coq = common.App("CBucket7", common.List(coqBlocks), tu.CoqStrs(in.WRL), coqMs, common.Bool(hne), common.Bytes(in.Label), so.coq(), po.coq())
+	c.Obs = map[string]any{"names": so.names, "values": so.values, "series": len(so.series), "proxy_series": len(po.series)}
+	check := func(who string, o obs) {
+		names := map[string]bool{}
+		for _, n := range o.names {
+			names[n] = true
+		}
+		vals := map[string]bool{}
+		for _, v := range o.values {
+			vals[v] = true
+		}
+		for _, l := range o.series {
+			l.Range(func(x labels.Label) {
+				if !names[x.Name] {
+					c.GoPred = fmt.Sprintf("%s: label name %q of series %s is not in LabelNames %v", who, x.Name, l, o.names)
+					c.Sig = "name-not-covered"
+				}
+				if x.Name == in.Label && !vals[x.Value] {
+					c.GoPred = fmt.Sprintf("%s: value %q of label %q on series %s is not in LabelValues %v", who, x.Value, x.Name, l, o.values)
+					c.Sig = "value-not-covered"
+				}
+			})
+		}
+	}
+	check("bucket store", so)
+	check("proxy over bucket store", po)
+	c.Class = "bucket"
+	if len(so.series) == 0 {
+		c.Class = "bucket/no-series"
+	}
+	for _, l := range po.series {
+		if l.Has(in.Label) {
+			c.Nontrivial = true
+		}
+	}
+	return c, nil
+}
+
+func genBlocks(r *rand.Rand) []tu.BlockIn {
+	var out []tu.BlockIn
+	n := 1 + r.Intn(3)
+	for i := 0; i < n; i++ {
+		b := tu.BlockIn{}
+		used := map[string]bool{"cluster": true}
+		b.Ext = append(b.Ext, tu.Lbl{"cluster", common.Pick(r, "c1", "c1", "c2")})
+		for q := r.Intn(3); q > 0; q-- {
+			nm := common.Pick(r, "region", "replica", "a", "zone")
+			if used[nm] {
+				continue
+			}
+			used[nm] = true
+			b.Ext = append(b.Ext, tu.Lbl{nm, common.Pick(r, "eu", "us", "1", "r0", "r1")})
+		}
+		for _, s := range genSeries(r) {
+			b.Series = append(b.Series, s.Labels)
+		}
+		out = append(out, b)
+	}
+	return out
+}
+
+func genRequest(r *rand.Rand, in *input, pool [][]tu.Lbl) {
+	if r.Intn(10) < 6 {
+		in.Ms = append(in.Ms, common.Pick(r,
+			tu.MatcherIn{Type: 2, Name: "__name__", Value: "up|m"},
+			tu.MatcherIn{Type: 2, Name: "__name__", Value: ".+"},
+			tu.MatcherIn{Type: 0, Name: "__name__", Value: "up"},
+			tu.MatcherIn{Type: 1, Name: "__name__", Value: ""},
+			tu.MatcherIn{Type: 3, Name: "a", Value: "9"}))
+	}
+	for q := r.Intn(3); q > 0 || len(in.Ms) == 0; q-- {
+		m := tu.MatcherIn{Type: r.Intn(4), Name: common.Pick(r, "__name__", "a", "b", "region", "replica", "cluster", "zone"), Value: common.Pick(r, mvals...)}
+		if r.Intn(3) == 0 && len(pool) > 0 {
+			s := pool[r.Intn(len(pool))]
+			l := s[r.Intn(len(s))]
+			m = tu.MatcherIn{Type: common.Pick(r, 0, 2, 1), Name: l[0], Value: l[1]}
+		}
+		in.Ms = append(in.Ms, m)
+	}
+	for q := r.Intn(3); q > 0; q-- {
+		in.WRL = append(in.WRL, common.Pick(r, "replica", "replica", "region", "a", "nope"))
+	}
+	in.Label = common.Pick(r, "__name__", "a", "b", "region", "replica", "cluster", "zone", "nope")
+}
+
 var (
 	snames  = []string{"a", "b", "region", "replica", "zone"}
 	svalues = []string{"1", "2", "eu", "us", "x"}
@@ -296,6 +448,20 @@ func gen(r *rand.Rand, tier string, n int) []any {
 			}
 			in.Label = common.Pick(r, "__name__", "a", "b", "region", "replica", "cluster", "zone", "nope")
 			out = append(out, in)
+		}
+	}
+	for nb := 0; nb < n/3; {
+		blocks := genBlocks(r)
+		var pool [][]tu.Lbl
+		for _, b := range blocks {
+			pool = append(pool, b.Series...)
+			pool = append(pool, b.Ext)
+		}
+		for k := 0; k < 10 && nb < n/3; k++ {
+			in := input{Kind: "bucket", Blocks: blocks}
+			genRequest(r, &in, pool)
+			out = append(out, in)
+			nb++
 		}
 	}
 	out = append(out, input{Kind: "cleanup"})
